@@ -204,3 +204,6 @@ _extend("C16", [("c09", "r6_trimmed", (), ALL, "with and without --revcomp the a
 _extend("C17", [("c03", "r4_intervals", (), ALL, "trimmed() of a match, replayed by the info writer on the original read, removes exactly the interval the coordinates describe"),
                 ("c18", "r5_file", (), _has("read_adapters_fasta"), "the adapter name printed is the name of the record the sequence came from")])
 _extend("C18", [("c08", "r4_eligibility", (), ALL, "a record's own indels/noindels setting is honoured when the adapters of a file share one index")])
+_extend("C09", [("c08", "r4_eligibility", (), ALL, "adapters that need the aligner (IUPAC wildcards, read wildcards) stay in the one-by-one search where the documented best-match rule applies"),
+                ("c18", "r4_precedence", (), ALL, "required/optional of a linked adapter's parts are its own: parameters of another specification do not leak into it"),
+                ("c03", "r5_actions", (), _has("times"), "actions that use the coordinates of the last match (retain, crop) are not combined with several rounds, whose later coordinates refer to an already trimmed read")])
